@@ -12,7 +12,14 @@ import TwistedModel.Fs.B64
 * `__init__` on an existing directory (recovery): `for f in glob("*.new"): os.remove(f)`; then
   `for f in glob("*.rpl"): old = f[:-4]; if os.path.exists(old): os.remove(f) else: os.rename(f, old)`.
   glob order: sorted (fsim), hidden names (leading '.') are not matched by `*` — the model has no
-  such names to offer since every name DirDBM creates starts with a base64 character.
+  such names to offer since every name DirDBM creates starts with a base64 character.  The directory part
+  of the glob pattern is `glob.escape`d (repaired code), so the name of the directory plays no role.
+* a `__setitem__` whose `_writeFile` raises after `p` bytes reached the file (disk full, `KeyboardInterrupt`;
+  the process lives on): the `except BaseException: new.remove(); raise` handler runs — `setFailTrace`.
+* `setdefault(k, v)`: `if key not in self: self[key] = v` — `setdefaultTrace`;
+  `update(d)`: `self[k] = v` for every item in order — `updateTrace`;
+  `clear()`: `del self[k]` for every key of `listdir` (sorted in fsim) — `clearTrace`.
+* `Shelf` is `DirDBM` with `pickle.dumps(v)` as the value (the harness passes the pickled bytes).
 -/
 namespace Twisted.Fs.DirDbm
 open Twisted.Fs
@@ -63,5 +70,26 @@ def recoverTrace (fs : Fs) : List Prim :=
   let t1 := (globExt fs extNew).map Prim.remove
   let fs1 := run t1 fs
   t1 ++ recoverRpl fs1 (globExt fs1 extRpl)
+
+/-- temporary name `__setitem__` writes to from state `fs` -/
+def tmpName (fs : Fs) (k : Bytes) : Name :=
+  encodeKey k ++ (if exists_ fs (encodeKey k) then extRpl else extNew)
+
+/-- `__setitem__` whose write fails (an exception, not a crash) after `p` bytes: the handler removes the
+    temporary file and re-raises; the old entry is never touched -/
+def setFailTrace (fs : Fs) (k v : Bytes) (p : Nat) : List Prim :=
+  [.create (tmpName fs k)] ++ writeP (tmpName fs k) (v.take p) ++ [.remove (tmpName fs k)]
+
+/-- `setdefault`: a set if the key is absent, nothing otherwise -/
+def setdefaultTrace (fs : Fs) (k v : Bytes) : List Prim :=
+  if exists_ fs (encodeKey k) then [] else setTrace fs k v
+
+/-- `update`: one `__setitem__` per item, in order -/
+def updateTrace : Fs → List (Bytes × Bytes) → List Prim
+  | _, [] => []
+  | fs, (k, v) :: rest => setTrace fs k v ++ updateTrace (run (setTrace fs k v) fs) rest
+
+/-- `clear`: one `__delitem__` per listed entry -/
+def clearTrace (fs : Fs) : List Prim := (sortNames (names fs)).map Prim.remove
 
 end Twisted.Fs.DirDbm
